@@ -64,7 +64,7 @@ fn runs_for(property: &str, tier: Tier) -> u64 {
         ("C08", Tier::Thorough) => 10_000_000,
         ("C07", Tier::Tiny) => 40,
         ("C07", Tier::Quick) => 4_000,
-        ("C07", Tier::Thorough) => 2_000_000,
+        ("C07", Tier::Thorough) => 1_000_000,
         ("C17", Tier::Tiny) => 20,
         ("C17", Tier::Quick) => 800,
         ("C17", Tier::Thorough) => 200_000,
@@ -332,7 +332,7 @@ fn check_main(args: &[String]) {
             Tier::Quick => (16, 1, 2),
             Tier::Tiny => (4, 1, 2),
         };
-        let m = miri_tier(seed, n_seeds, n_plans, reps, None);
+        let m = miri_tier(seed, n_seeds, n_plans, reps, None, false);
         sum.count("miri-tier:scheduler-seeds", m.miri_seeds);
         sum.count("miri-tier:seeds-completed", m.ok_lines);
         sum.count("miri-tier:concurrent-client-threads", m.threads);
@@ -346,6 +346,15 @@ fn check_main(args: &[String]) {
         }});
         if let Some(v) = m.violation {
             sum.violations.push(v);
+        } else if tier == Tier::Thorough || std::env::var("VERIF_MIRI_LONG_TEXTS").is_ok() {
+            // second batch, thorough only: two clients with texts of 1024+ characters (the size
+            // class in which shared state for "long inputs" would engage); ~1 minute per seed
+            let m2 = miri_tier(seed, 16, 1, 2, None, true);
+            sum.count("miri-tier:long-text-seeds-completed", m2.ok_lines);
+            sum.count("miri-tier:long-text-operations", m2.operations);
+            if let Some(v) = m2.violation {
+                sum.violations.push(v);
+            }
         }
     }
     finish(property, tier, seed, &info, sum, t0, extra);
@@ -545,7 +554,7 @@ fn replay_main(args: &[String]) {
         "histsim-miri" => {
             let n_plans = rf.plan["n_plans"].as_u64().unwrap_or(1);
             let reps = rf.plan["reps"].as_u64().unwrap_or(1);
-            let m = miri_tier(rf.verif_seed, 1, n_plans, reps, Some(rf.miri_seed.unwrap_or(0)));
+            let m = miri_tier(rf.verif_seed, 1, n_plans, reps, Some(rf.miri_seed.unwrap_or(0)), rf.plan["long_texts"].as_bool().unwrap_or(false));
             Ok(m.violation.map(|v| (v.class, v.detail, vec![format!("Miri seed {:?}", rf.miri_seed)])))
         }
         _ => harness_error("unknown engine in replay file"),
@@ -626,7 +635,8 @@ fn miri_run_main(args: &[String]) {
         Some(b) => b,
         None => std::collections::hash_map::RandomState::new().build_hasher().finish() % (1 << 20),
     };
-    let start = block * n_plans;
+    let long = args.get(4).map(|s| s == "long").unwrap_or(false);
+    let start = block * n_plans + if long { hist_engine::LONG_TEXT_RUN_BASE } else { 0 };
     let end = start + n_plans;
     let mut threads = 0usize;
     let mut ops = 0usize;
@@ -674,7 +684,7 @@ struct MiriOutcome {
 }
 
 /// Runs the thread tier under `cargo +nightly miri` with `n_seeds` scheduler seeds.
-fn miri_tier(seed: u64, n_seeds: u64, n_plans: u64, reps: u64, only_seed: Option<u64>) -> MiriOutcome {
+fn miri_tier(seed: u64, n_seeds: u64, n_plans: u64, reps: u64, only_seed: Option<u64>, long: bool) -> MiriOutcome {
     let t0 = Instant::now();
     let mut out = MiriOutcome::default();
     let build = PathBuf::from(std::env::var("VERIF_BUILD").unwrap_or_else(|_| harness_error("VERIF_BUILD is not set (run through ./check)")));
@@ -686,6 +696,7 @@ fn miri_tier(seed: u64, n_seeds: u64, n_plans: u64, reps: u64, only_seed: Option
         .args(["+nightly", "miri", "run", "--offline", "--no-default-features", "--manifest-path"])
         .arg(build.join("crate/Cargo.toml"))
         .args(["--", "miri-run", &seed.to_string(), &n_plans.to_string(), &reps.to_string()])
+        .args(if long { vec!["-", "long"] } else { vec![] })
         .env("MIRIFLAGS", &flags)
         .env("CARGO_TARGET_DIR", build.join("miri-target"))
         .env_remove("RUSTFLAGS")
@@ -755,7 +766,7 @@ fn miri_tier(seed: u64, n_seeds: u64, n_plans: u64, reps: u64, only_seed: Option
             original_size: 0,
             minimised_size: 0,
             minimiser_executions: 0,
-            plan: json!({"verif_seed": seed, "n_plans": n_plans, "reps": reps, "miri_many_seeds": n_seeds}),
+            plan: json!({"verif_seed": seed, "n_plans": n_plans, "reps": reps, "miri_many_seeds": n_seeds, "long_texts": long}),
             miri_seed: failing,
         };
         let _ = write_json(&path, &rf);
